@@ -6,7 +6,7 @@ from hypothesis import strategies as st
 import pytenet as ptn
 from core import Part, require
 from oracle_dense import mpo_to_mat, operator_schmidt_values
-from gen_graph import chain_list, build_chains, layered_graph, build_graph, physical_charges, random_opmap, OID_ID
+from gen_graph import chain_list, build_chains, layered_graph, build_graph, physical_charges, random_opmap, OID_ID, with_identity_id, opmap_with_identity_id
 from oracle_sym import graph_layers
 
 ID = 'C20'
@@ -117,6 +117,9 @@ def gen_model(draw, tier):
 
 def check_chain_bound(case, rec):
     L = case['L']
+    ident = [0, 0, 5, -4][case['chains'][0]['istart'] % 4 if case['chains'] else 0] if len(case['chains']) % 2 else 0
+    case = with_identity_id(case, ident)
+    OID_ID = ident
     nz = [c for c in case['chains'] if c['coeff'] != 0]
     if not nz:
         rec.skip('all coefficients zero')
@@ -133,7 +136,7 @@ def check_chain_bound(case, rec):
         require(w <= len(keys), 'bond dimension exceeds the number of distinct chains', cut=cut, width=w, distinct=len(keys), widths=widths)
     qd = physical_charges(False, 0, L)
     if all(all(q == 0 for q in c['qnums']) for c in nz):
-        mpo = ptn.MPO.from_opgraph(qd, graph, random_opmap(qd, False, 1))
+        mpo = ptn.MPO.from_opgraph(qd, graph, opmap_with_identity_id(random_opmap(qd, False, 1), ident))
         require(mpo.bond_dims == widths, 'MPO bond dimensions differ from the graph layer widths', bond_dims=mpo.bond_dims, widths=widths)
     # simplify never increases a bond dimension
     g2 = copy.deepcopy(graph)
